@@ -280,8 +280,10 @@ CMR_ERROR CMRctuTest(CMR* cmr, CMR_CHRMAT* matrix, bool* pisComplementTotallyUni
 #endif /* CMR_DEBUG */
 
       bool isTU = false;
-      CMR_CALL( CMRtuTest(cmr, complementedMatrix, &isTU, NULL, NULL, &params->tu,
-        stats ? &stats->tu : NULL, remainingTime) );
+      error = CMRtuTest(cmr, complementedMatrix, &isTU, NULL, NULL, &params->tu,
+        stats ? &stats->tu : NULL, remainingTime);
+      if (error != CMR_OKAY)
+        goto cleanup;
 
       CMRdbgMsg(2, "-> %sTU.\n", isTU ? "IS " : "is NOT ");
 
